@@ -25,6 +25,9 @@ let one_n = n_of_int 1
 let run_request (b : Builder.builder ref) (h : handles) (r : Sx.t) : unit =
   let a = Array.of_list (Sx.args r) in
   let w i = wire h a.(i) in
+  let ws i = Stdlib.List.map (wire h) (Sx.list a.(i)) in
+  let flag i = Sx.atom a.(i) = "1" in
+  let nat i = nat_of_int (int_of_string (Sx.atom a.(i))) in
   let single res = let (x, b') = unres res in b := b'; push h x in
   match Sx.head r with
   | "xor" -> single (Builder.push_xor_top !b (w 0) (w 1))
@@ -36,6 +39,37 @@ let run_request (b : Builder.builder ref) (h : handles) (r : Sx.t) : unit =
   | "adder" ->
     let ((s, c), b') = unres (Gadgets.push_adder !b (w 0) (w 1) (w 2)) in
     b := b'; push h s; push h c
+  (* ---- arithmetic gadgets on wire lists (C03); operands MSB first *)
+  | "eqc" -> single (Gadgets.push_eq_circuit !b (ws 0) (ws 1))
+  | "addc" ->
+    let (((sum, c), cp), b') = unres (Gadgets.push_addition_circuit !b (ws 0) (ws 1)) in
+    b := b'; Stdlib.List.iter (push h) sum; push h c; push h cp
+  | "negc" ->
+    let (r, b') = unres (Gadgets.push_negation_circuit !b (ws 0)) in
+    b := b'; Stdlib.List.iter (push h) r
+  | "subc" ->
+    let ((r, ov), b') = unres (Gadgets.push_subtraction_circuit !b (ws 0) (ws 1) (flag 2)) in
+    b := b'; Stdlib.List.iter (push h) r; push h ov
+  | "udiv" ->
+    let ((q, r), b') = unres (Gadgets.push_unsigned_division_circuit !b (ws 0) (ws 1)) in
+    b := b'; Stdlib.List.iter (push h) q; Stdlib.List.iter (push h) r
+  | "sdiv" ->
+    let ((q, r), b') = unres (Gadgets.push_signed_division_circuit !b (ws 0) (ws 1)) in
+    b := b'; Stdlib.List.iter (push h) q; Stdlib.List.iter (push h) r
+  | "gt" -> single (Gadgets.push_gt_circuit !b (nat 0) (ws 1) (ws 2))
+  | "cmp" ->
+    let ((lt, gt), b') =
+      unres (Gadgets.push_comparator_circuit !b (nat 0) (ws 1) (flag 2) (ws 3) (flag 4)) in
+    b := b'; push h lt; push h gt
+  | "mult" ->
+    let ((s, c), b') = unres (Gadgets.push_multiplier !b (w 0) (w 1) (w 2) (w 3)) in
+    b := b'; push h s; push h c
+  | "condswap" ->
+    let ((x, y), b') = unres (Gadgets.push_condswap !b (w 0) (w 1) (w 2)) in
+    b := b'; push h x; push h y
+  | "ext" ->
+    let r = unres (Extend.extend_to_bits (ws 0) (flag 1) (nat 2)) in
+    Stdlib.List.iter (push h) r
   | k -> failwith ("unknown request " ^ k)
 
 let job_builder (job : Sx.t) : string =
